@@ -86,6 +86,10 @@ def coq_shard(name, terms):
     body = ("From PGV Require Import C11.Model.\nDefinition cases : list (config * nat * Z * list hstep) :=\n [" +
             ";\n ".join(terms) + "].\nDefinition M := Eval vm_compute in mismatches_from 0 cases.\nPrint M.\n")
     rc, out, err = vlib.coq_eval(name, body, timeout=900)
+    try:
+        os.remove(os.path.join(vlib.RUN, name + ".v"))   # per-process scratch name: do not litter coq/_run
+    except OSError:
+        pass
     if rc != 0:
         return None, (out + err)[-2000:]
     import re
@@ -140,7 +144,7 @@ def run(ctx):
             for t in (["local", "ref", "gob"] if "transport" not in c else [c["transport"]]):
                 cc = dict(c); cc["transport"] = t
                 cases.append(cc)
-        nsched = 70 if tier == "quick" else 2000
+        nsched = 60 if tier == "quick" else 2000
         for i in range(nsched):
             sch = gen_schedule(rng, tier)
             ts = ["local", "gob"] + (["ref"] if i % 10 == 0 else [])
@@ -222,9 +226,9 @@ def run(ctx):
                 continue
             t, k = c11_lib.case_coq(c, r, RULES)
             terms.append((c, t))
-        shard = 100
+        shard = 50 if ctx.tier == "quick" else 100
         jobs = []
-        with concurrent.futures.ThreadPoolExecutor(max_workers=4) as ex:
+        with concurrent.futures.ThreadPoolExecutor(max_workers=6) as ex:
             for sidx in range(0, len(terms), shard):
                 part = terms[sidx:sidx + shard]
                 jobs.append((part, ex.submit(coq_shard, "C11_cases_%d_%d" % (os.getpid(), sidx), [t for _, t in part])))
@@ -260,7 +264,7 @@ MANIFEST = {
                   "oracle (agreement, one winner, stale sections, release, progress epilogue, transport independence, RPC smoke)"),
     "text": ("Theorems in coq/Properties/C11.v, closed under the global context, about the repaired code (three fix commits): "
              "version_monotone, agreement, agreement_state, one_winner_per_version, one_pending_winner, stale_read_aborts, no_panic, "
-             "abort_releases, contenders_progress (from released states), transport_independent. The invariant (coq/C11/Proofs1.v) is "
+             "abort_releases, contenders_progress (from released states, any reachable majority), contenders_progress_all, transport_independent. The invariant (coq/C11/Proofs1.v) is "
              "proved inductive for every event list, any n. The model is tied to twopc.go on every run by replaying the concrete "
              "traces of several hundred schedules (2-7 replicas, 1-4 writers, duplicates, time-outs, both transports)."),
     "level_note": ("Trusted: Coq kernel; the hand-written model (tie = differential testing: a code change is caught if a generated schedule "
